@@ -44,7 +44,7 @@ ASSUMPTIONS = [
     "schedules, fault positions and configurations are sampled by seed, not enumerated",
 ]
 TIERS = {
-    "quick": {"runs": 24000, "time_cap_s": 75, "chunk": 100, "det_inproc": 10, "det_fresh": 5, "minimise_s": 40},
+    "quick": {"runs": 40000, "time_cap_s": 75, "chunk": 100, "det_inproc": 10, "det_fresh": 5, "minimise_s": 40},
     "thorough": {"runs": 1500000, "time_cap_s": 1200, "chunk": 400, "det_inproc": 60, "det_fresh": 30, "minimise_s": 120},
 }
 
